@@ -196,11 +196,11 @@ package segment
 //@   ensures cap(w.writer.commitBuf) == old(cap(w.writer.commitBuf))
 
 //@ func (*Writer).sync
-//@   props C01 C10
+//@   props C01 C04 C10
 //@   requires w.wf != nil && w.info.BaseIndex <= 0x7fffffff00000000 && len(av(w.offsets)) <= 0x20000000
 //@   assigns w.writer.writeOffset, reslice(w.writer.commitBuf), w.wf.dirty, w.wf.dirLinked, w.commitIdx
 //@   site atomic-store(commitIdx) requires[C01.durable-before-visible] !w.wf.dirty && w.wf.dirLinked
-//@   ensures[C01.sync-ok] result == nil ==> !w.wf.dirty && w.wf.dirLinked
+//@   ensures[C01.sync-ok,C04.sync-ok] result == nil ==> !w.wf.dirty && w.wf.dirLinked
 //@   ensures result == nil ==> len(w.writer.commitBuf) == 0 && w.writer.writeOffset == old(w.writer.writeOffset) + uint32(old(len(w.writer.commitBuf)))
 //@   ensures result == nil ==> w.commitIdx == ite(len(av(w.offsets)) > 0, w.info.BaseIndex + uint64(len(av(w.offsets))) - 1, 0)
 //@   ensures[C10.failed-sync-not-published] result != nil ==> w.commitIdx == old(w.commitIdx)
@@ -279,7 +279,7 @@ package segment
 //@      w.writer.commitBuf[len(w.writer.commitBuf):cap(w.writer.commitBuf)]
 //@   ensures[C04.forceseal-idempotent] old(w.writer.indexStart) > 0 ==> result1 == nil && result0 == old(w.writer.indexStart) && w.writer.indexStart == old(w.writer.indexStart)
 //@   ensures[C04.forceseal-sealed] result1 == nil && len(av(w.offsets)) > 0 ==> w.writer.indexStart > 0 && result0 == w.writer.indexStart
-//@   ensures[C01.forceseal-synced] result1 == nil && old(w.writer.indexStart) == 0 ==> !w.wf.dirty && w.wf.dirLinked
+//@   ensures[C01.forceseal-synced,C04.forceseal-synced] result1 == nil && old(w.writer.indexStart) == 0 ==> !w.wf.dirty && w.wf.dirLinked
 //@   ensures[C10.forceseal-commitidx] result1 != nil ==> w.commitIdx == old(w.commitIdx)
 //@   ensures[C10.forceseal-rollback] result1 != nil ==> w.writer.indexStart == old(w.writer.indexStart) && sameslice(w.writer.commitBuf, old(w.writer.commitBuf))
 //@      && w.writer.crc == old(w.writer.crc) && w.writer.writeOffset == old(w.writer.writeOffset)
@@ -463,7 +463,12 @@ package segment
 //@   props C02 C03
 //@   refines types.SegmentFiler.RecoverTail
 //@   requires f.vfs != nil && info.BaseIndex >= 1 && info.BaseIndex <= 0x7fffffff00000000
-//@   assigns g_open, g_scanLast, g_scanSize
+//@   assigns g_open, g_scanLast, g_scanSize, g_vfs_open_err
+//@   -- wal.Open re-creates a tail the metadata lists but whose file is missing (a
+//@   -- crash between the metadata commit and the file creation): it recognises that
+//@   -- case by errors.Is(err, os.ErrNotExist), so the cause reported by the VFS
+//@   -- (g_vfs_open_err, the error of OpenWriter) must stay in the error chain
+//@   ensures[C03.missing-tail-keeps-cause] g_vfs_open_err != nil ==> result1 != nil && errors.Is(result1, g_vfs_open_err)
 //@   ensures[C03.recovered-appendable] result1 == nil ==> result0 != nil && WInv(result0)
 //@   ensures[C11.recovertail-releases] result1 != nil ==> g_open == old(g_open)
 //@   ensures[C11.recovertail-holds-one] result1 == nil ==> g_open == old(g_open) + 1
